@@ -153,3 +153,52 @@ package collection
 //@   ensures [invalid] key == nil ==> result == ErrArgument && calls("send") == 0
 //@   ensures [valid] key != nil ==> result == nil || result == ErrClosed
 //@   modifies nothing
+
+// ---------------- RollingWindow ----------------
+// Representation invariant: `size` distinct non-nil buckets, offset inside the ring, positive interval.
+//@ macro rwOK(rw) = rw != nil && rw.size >= 1 && rw.win != nil && rw.win.size == rw.size && len(rw.win.buckets) == rw.size
+//@   | && 0 <= rw.offset && rw.offset < rw.size && rw.interval > 0 && rw.lastTime >= 0
+//@   | && forall(i, 0, rw.size, rw.win.buckets[i] != nil)
+//@   | && forall(i, 0, rw.size, forall(j, 0, rw.size, i != j ==> rw.win.buckets[i] != rw.win.buckets[j]))
+// number of bucket boundaries crossed since lastTime, capped at the ring size
+//@ macro rwSpan(rw, now) = ite((now - rw.lastTime) / rw.interval < rw.size, (now - rw.lastTime) / rw.interval, rw.size)
+
+//@ func (*RollingWindow).span
+//@   prop C09, C01
+//@   requires rwOK(rw)
+//@   let now = ret(timex.Now)
+//@   ensures [span] now >= rw.lastTime ==> result == rwSpan(rw, now)
+//@   ensures [range] 0 <= result && result <= rw.size
+//@   modifies nothing
+//@   inline always
+
+// updateOffset at time `now` (the clock is read twice; one call is one instant): the `span` buckets after the
+// old offset are emptied, every other bucket is untouched, the offset advances by span (mod size) and lastTime
+// becomes the start of the bucket interval that contains `now`.
+//@ func (*RollingWindow).updateOffset
+//@   prop C09, C01
+//@   requires rwOK(rw)
+//@   let now = ret(timex.Now, 0, 1)
+//@   let sp = old(rwSpan(rw, now))
+//@   assume now >= rw.lastTime ==> true
+//@   observe Size = old(rw.size)
+//@   observe Interval = old(rw.interval)
+//@   observe Elapsed = now - old(rw.lastTime)
+//@   observe Offset = old(rw.offset)
+//@   replay rw_updateOffset
+//@   replay-assume old(rw.size) <= 4 && old(rw.interval) <= 10 && now - old(rw.lastTime) <= 100
+//@   loop 1 invariant 0 <= i && i <= span && span <= rw.size && offset == old(rw.offset) && rw.size == old(rw.size) && rw.win == old(rw.win)
+//@   loop 1 invariant rw.win.size == rw.size && rw.win.buckets == old(rw.win.buckets) && rw.offset == old(rw.offset)
+//@   loop 1 invariant forall(j, 0, rw.size, wrap(j - offset - 1, rw.size) < i ==> rw.win.buckets[j].Sum == 0.0 && rw.win.buckets[j].Count == 0)
+//@   loop 1 invariant forall(j, 0, rw.size, wrap(j - offset - 1, rw.size) >= i ==> rw.win.buckets[j].Sum == old(rw.win.buckets[j].Sum) && rw.win.buckets[j].Count == old(rw.win.buckets[j].Count))
+//@   ensures [same-instant] calls(timex.Now) == 2 ==> true
+//@   ensures [offset] ret(timex.Now, 0, 2) == now && now >= old(rw.lastTime) ==> rw.offset == wrap(old(rw.offset) + sp, rw.size)
+//@   ensures [expired-emptied] ret(timex.Now, 0, 2) == now && now >= old(rw.lastTime) ==>
+//@     | forall(j, 0, rw.size, wrap(j - old(rw.offset) - 1, rw.size) < sp ==> rw.win.buckets[j].Sum == 0.0 && rw.win.buckets[j].Count == 0)
+//@   ensures [others-kept] ret(timex.Now, 0, 2) == now && now >= old(rw.lastTime) ==>
+//@     | forall(j, 0, rw.size, wrap(j - old(rw.offset) - 1, rw.size) >= sp ==> rw.win.buckets[j].Sum == old(rw.win.buckets[j].Sum) && rw.win.buckets[j].Count == old(rw.win.buckets[j].Count))
+//@   ensures [aligned] ret(timex.Now, 0, 2) == now && now >= old(rw.lastTime) && sp > 0 ==> rw.lastTime <= now && now - rw.lastTime < rw.interval
+//@   ensures [phase] ret(timex.Now, 0, 2) == now && now >= old(rw.lastTime) ==> (rw.lastTime - old(rw.lastTime)) % rw.interval == 0
+//@   ensures [no-boundary-no-change] now >= old(rw.lastTime) && sp == 0 ==> rw.lastTime == old(rw.lastTime) && rw.offset == old(rw.offset)
+//@   ensures [shape] rw.size == old(rw.size) && rw.win == old(rw.win) && rw.interval == old(rw.interval) && rw.win.buckets == old(rw.win.buckets)
+//@   modifies rw.offset, rw.lastTime, Bucket.Sum, Bucket.Count
